@@ -109,7 +109,7 @@ class ReplList(SyncObjConsumer):
         self.__data.remove(element)
 
     @replicated
-    def pop(self, position=None):
+    def pop(self, position=-1):
         """
         Remove and return item at position (default last).
         Raises IndexError if list is empty or index is out of range.
